@@ -1,6 +1,610 @@
+// C08 harness, part 4: the JSON half, as a direct oracle on the implementation (real
+// jsonpb-based marshalers, real hand-written jsoniter decoders):
+//
+//	json-roundtrip   UnmarshalJSON(MarshalJSON(v)) = v, field by field (NaN payloads are canonicalised
+//	                 first: JSON has one NaN)
+//	json-proto-agree Marshal(UnmarshalJSON(MarshalJSON(v))) = Marshal(v)
+//	json-forms       the same document with 64-bit integers written as numbers / as strings, enums
+//	                 written as names, keys in snake_case decodes to the same payload
+//	wrapper-agree    ExportRequest / ExportResponse JSON = the payload's JSON, both directions
+//	json-fixpoint / panic / hang   mutated and random JSON texts: no panic, returns, and whatever
+//	                 decodes re-encodes to a fixed point
 package pprofileotlp
 
-import "reflect"
+import (
+	"bytes"
+	stdjson "encoding/json"
+	"fmt"
+	"math"
+	"reflect"
+	"sort"
+	"strconv"
+	"strings"
+	"unicode/utf8"
+)
 
-func (r *vRun) jsonChecks(sg *vSignal, m *vMsg, v reflect.Value, pb []byte)                       {}
-func (r *vRun) jsonResponseChecks(sg *vSignal, m *vMsg, v reflect.Value, api vRespAPI, pb []byte) {}
+// canonicalise NaN payloads in place (JSON can only say "NaN"); returns how many were changed
+func vCanonNaN(v reflect.Value) int {
+	n := 0
+	switch v.Kind() {
+	case reflect.Float64:
+		f := v.Float()
+		if f != f && math.Float64bits(f) != math.Float64bits(math.NaN()) {
+			v.SetFloat(math.NaN())
+			n++
+		}
+	case reflect.Ptr, reflect.Interface:
+		if !v.IsNil() {
+			n += vCanonNaN(v.Elem())
+		}
+	case reflect.Struct:
+		for i := 0; i < v.NumField(); i++ {
+			n += vCanonNaN(v.Field(i))
+		}
+	case reflect.Slice:
+		if v.Type().Elem().Kind() == reflect.Uint8 {
+			return 0
+		}
+		for i := 0; i < v.Len(); i++ {
+			n += vCanonNaN(v.Index(i))
+		}
+	}
+	return n
+}
+
+type vFieldDiff struct {
+	msg, field string
+	what       string
+	got        string
+}
+
+// all leaf-level differences between two trees of message m (a = expected, b = got)
+func (s *vSchema) diffAll(m *vMsg, a, b *vT, out *[]vFieldDiff) {
+	short := func(t *vT) string {
+		x := t.String()
+		if len(x) > 80 {
+			x = x[:80] + "…"
+		}
+		return x
+	}
+	for i, f := range m.fields {
+		x, y := a.kids[i], b.kids[i]
+		add := func() {
+			*out = append(*out, vFieldDiff{m.name, f.name, fmt.Sprintf("expected %s got %s", short(x), short(y)), y.String()})
+		}
+		one := func(x, y *vT) bool { // true = equal
+			if f.ty == vtMsg && x.k == 'm' && y.k == 'm' {
+				s.diffAll(f.msg, x, y, out)
+				return true
+			}
+			return x.String() == y.String()
+		}
+		switch f.card {
+		case vcOpt:
+			if !one(x, y) {
+				add()
+			}
+		case vcOneof:
+			if x.k != y.k {
+				add()
+			} else if x.k == 's' {
+				if x.kids[0].k != y.kids[0].k || !one(x.kids[0], y.kids[0]) {
+					add()
+				}
+			}
+		case vcRep, vcPacked:
+			if len(x.kids) != len(y.kids) {
+				add()
+				continue
+			}
+			for j := range x.kids {
+				if !one(x.kids[j], y.kids[j]) {
+					add()
+					break
+				}
+			}
+		}
+	}
+}
+
+func (r *vRun) reportDiffs(kind, label, term string, diffs []vFieldDiff) {
+	seen := map[string]bool{}
+	for _, d := range diffs {
+		k := d.msg + "." + d.field
+		if seen[k] {
+			continue
+		}
+		seen[k] = true
+		r.hist["jsondiff_"+k]++
+		r.out.Oracle(kind, term, fmt.Sprintf("field-lost %s: %s: %s", k, label, d.what))
+	}
+}
+
+// ---- rewriting a JSON document along the schema -------------------------------------------------
+type vJSONForm struct {
+	int64AsNumber bool // 64-bit integers: "123" -> 123
+	intsAsString  bool // every integer (32 and 64 bit): 123 -> "123"
+	enumAsName    bool // enum numbers -> their names (when the number has one)
+	snakeKeys     bool // lowerCamelCase keys -> the original snake_case names
+}
+
+func vIs64(f *vField) bool {
+	switch f.skind {
+	case "SU64", "SI64", "SFix64", "SSFix64":
+		return true
+	}
+	return false
+}
+
+func vIsInt(f *vField) bool {
+	switch f.skind {
+	case "SU64", "SI64", "SFix64", "SSFix64", "SU32", "SI32", "SFix32", "SZig32":
+		return true
+	}
+	return false
+}
+
+func (r *vRun) rewriteScalar(f *vField, x interface{}, form vJSONForm) interface{} {
+	switch {
+	case f.skind == "SEnum" && form.enumAsName:
+		if n, ok := x.(stdjson.Number); ok {
+			if i, err := strconv.ParseInt(string(n), 10, 32); err == nil {
+				if name, ok := f.enumName[int32(i)]; ok {
+					r.hist["form_enum_as_name"]++
+					return name
+				}
+			}
+		}
+	case vIs64(f) && form.int64AsNumber:
+		if s, ok := x.(string); ok {
+			r.hist["form_int64_as_number"]++
+			return stdjson.Number(s)
+		}
+	case vIsInt(f) && form.intsAsString:
+		if n, ok := x.(stdjson.Number); ok {
+			r.hist["form_int_as_string"]++
+			return string(n)
+		}
+	}
+	return x
+}
+
+func (r *vRun) rewriteJSON(m *vMsg, node interface{}, form vJSONForm) interface{} {
+	obj, ok := node.(map[string]interface{})
+	if !ok {
+		return node
+	}
+	res := map[string]interface{}{}
+	for k, v := range obj {
+		var f *vField
+		for _, g := range m.fields {
+			if g.jsonName == k {
+				f = g
+				break
+			}
+		}
+		if f == nil {
+			res[k] = v
+			continue
+		}
+		one := func(x interface{}) interface{} {
+			switch f.ty {
+			case vtMsg:
+				return r.rewriteJSON(f.msg, x, form)
+			case vtScalar:
+				return r.rewriteScalar(f, x, form)
+			}
+			return x
+		}
+		var nv interface{}
+		if f.card == vcRep || f.card == vcPacked {
+			if arr, ok := v.([]interface{}); ok {
+				na := make([]interface{}, len(arr))
+				for i := range arr {
+					na[i] = one(arr[i])
+				}
+				nv = na
+			} else {
+				nv = v
+			}
+		} else {
+			nv = one(v)
+		}
+		key := k
+		if form.snakeKeys && f.name != k {
+			key = f.name
+			r.hist["form_snake_key"]++
+		}
+		res[key] = nv
+	}
+	return res
+}
+
+func vParseJSON(j []byte) (interface{}, error) {
+	dec := stdjson.NewDecoder(bytes.NewReader(j))
+	dec.UseNumber()
+	var x interface{}
+	err := dec.Decode(&x)
+	return x, err
+}
+
+func vEncodeJSON(x interface{}) ([]byte, error) {
+	var buf bytes.Buffer
+	enc := stdjson.NewEncoder(&buf)
+	enc.SetEscapeHTML(false)
+	err := enc.Encode(x)
+	return buf.Bytes(), err
+}
+
+var vForms = []struct {
+	name string
+	form vJSONForm
+}{
+	{"int64-as-number", vJSONForm{int64AsNumber: true}},
+	{"ints-as-string", vJSONForm{intsAsString: true}}, // 32-bit integers as strings: not demanded by the property, statistics only
+	{"enum-as-name", vJSONForm{enumAsName: true}},
+	{"snake-case-keys", vJSONForm{snakeKeys: true}},
+	{"all-alternate-forms", vJSONForm{int64AsNumber: true, enumAsName: true, snakeKeys: true}},
+}
+
+// v is a generated request value of signal sg, pb its protobuf encoding
+func (r *vRun) jsonChecks(sg *vSignal, m *vMsg, v reflect.Value, pb []byte) {
+	if c := vCanonNaN(v); c > 0 {
+		r.hist["json_nan_payload_canonicalised"] += c
+		var err error
+		if pb, err = sg.marshalPB(v.Addr().Interface()); err != nil {
+			return
+		}
+	}
+	req := v.Addr().Interface()
+	t0 := r.s.tree(m, v)
+	term := vCaseTerm(0, m.id, t0.String(), pb, len(pb))
+	var j []byte
+	var err error
+	if !vGuard(r.out, sg.name+" MarshalJSON", term, func() { j, err = sg.marshalJSON(req) }) {
+		return
+	}
+	if err != nil {
+		r.out.Oracle("json-marshal", term, fmt.Sprintf("%s: MarshalJSON fails: %v", sg.name, err))
+		return
+	}
+	r.hist[fmt.Sprintf("json_bytes_%05d", len(j)/1024*1024)]++
+	r.jpool = append(r.jpool, vJSONDoc{sg, m, j})
+	var x interface{}
+	if !vGuard(r.out, sg.name+" UnmarshalJSON", term, func() { x, err = sg.unmarshalJSON(j) }) {
+		return
+	}
+	if err != nil {
+		r.out.Oracle("json-roundtrip", term, fmt.Sprintf("%s: UnmarshalJSON(MarshalJSON(v)) fails: %v", sg.name, err))
+		return
+	}
+	xv := reflect.ValueOf(x).Elem()
+	t1 := r.s.tree(m, xv)
+	exp := t0.clone()
+	var info vNormInfo
+	r.s.normJSON(m, exp, &info)
+	var diffs []vFieldDiff
+	r.s.diffAll(m, exp, t1, &diffs)
+	if info.nilinner > 0 {
+		r.hist["json_nil_bytes_in_oneof"]++
+	}
+	pb2, err2 := sg.marshalPB(x)
+	if len(diffs) > 0 {
+		r.reportDiffs("json-roundtrip", sg.name+" UnmarshalJSON(MarshalJSON(v))", term, diffs)
+	} else if err2 != nil || !bytes.Equal(pb2, pb) {
+		// nil []byte inside a oneof: JSON gives []byte{} back, which protobuf then DOES emit
+		if info.nilinner > 0 {
+			r.out.Oracle("json-proto-agree", term, fmt.Sprintf("known:empty-bytes %s: JSON turns a Bytes value holding nil into an empty one, protobuf drops it", sg.name))
+		} else {
+			r.out.Oracle("json-proto-agree", term, fmt.Sprintf("%s: Marshal(UnmarshalJSON(MarshalJSON(v))) != Marshal(v) although the values agree field by field (err=%v)", sg.name, err2))
+		}
+	}
+	// the export-request wrapper: same JSON, same decoding
+	j2, err := sg.reqMarshalJSON(req)
+	if err != nil || !bytes.Equal(j, j2) {
+		r.out.Oracle("wrapper-agree", term, fmt.Sprintf("%s: ExportRequest.MarshalJSON differs from JSONMarshaler (err=%v)", sg.name, err))
+	}
+	if y, err := sg.reqUnmarshalJSON(j); err != nil {
+		r.out.Oracle("wrapper-agree", term, fmt.Sprintf("%s: ExportRequest.UnmarshalJSON fails: %v", sg.name, err))
+	} else if pb3, err := sg.marshalPB(y); err != nil || !bytes.Equal(pb3, pb2) {
+		r.out.Oracle("wrapper-agree", term, fmt.Sprintf("%s: ExportRequest.UnmarshalJSON and JSONUnmarshaler decode the same document differently (err=%v)", sg.name, err))
+	}
+	// alternate spellings of the same document
+	doc, err := vParseJSON(j)
+	if err != nil {
+		r.out.Oracle("json-marshal", term, fmt.Sprintf("%s: MarshalJSON output is not JSON: %v", sg.name, err))
+		return
+	}
+	// correspondence with the JSON tree model: value -> tree (kind 4), tree -> value (kind 5)
+	r.out.Case(true, vCaseTermJ(4, m.id, t0.String(), r.s.jvTerm(m, doc)))
+	r.out.Case(true, vCaseTermJ(5, m.id, "VSome ("+t1.String()+")", r.s.jvTerm(m, doc)))
+	r.hist["json_model_cases"] += 2
+	for _, fm := range vForms {
+		altDoc := r.rewriteJSON(m, doc, fm.form)
+		alt, err := vEncodeJSON(altDoc)
+		if err != nil {
+			continue
+		}
+		var y interface{}
+		if !vGuard(r.out, sg.name+" UnmarshalJSON("+fm.name+")", term, func() { y, err = sg.unmarshalJSON(alt) }) {
+			continue
+		}
+		if fm.name == "all-alternate-forms" || fm.name == "ints-as-string" {
+			if err != nil {
+				r.out.Case(false, vCaseTermJ(5, m.id, "VNone", r.s.jvTerm(m, altDoc)))
+			} else {
+				r.out.Case(true, vCaseTermJ(5, m.id, "VSome ("+r.s.tree(m, reflect.ValueOf(y).Elem()).String()+")", r.s.jvTerm(m, altDoc)))
+			}
+			r.hist["json_model_cases"]++
+		}
+		if fm.form.intsAsString {
+			if err != nil {
+				r.hist["form32_as_string_rejected"]++
+			} else {
+				r.hist["form32_as_string_accepted"]++
+			}
+			continue
+		}
+		if err != nil {
+			r.out.Oracle("json-forms", term, fmt.Sprintf("%s: form %s is rejected: %v", sg.name, fm.name, err))
+			continue
+		}
+		pb4, err := sg.marshalPB(y)
+		if err != nil || !bytes.Equal(pb4, pb2) {
+			var d2 []vFieldDiff
+			r.s.diffAll(m, t1, r.s.tree(m, reflect.ValueOf(y).Elem()), &d2)
+			if len(d2) == 0 {
+				r.out.Oracle("json-forms", term, fmt.Sprintf("%s: form %s decodes to a different payload (err=%v)", sg.name, fm.name, err))
+			}
+			seen := map[string]bool{}
+			for _, d := range d2 {
+				k := d.msg + "." + d.field
+				if !seen[k] {
+					seen[k] = true
+					r.hist["jsonform_"+fm.name+"_"+k]++
+					r.out.Oracle("json-forms", term, fmt.Sprintf("form %s %s: %s: %s", fm.name, k, sg.name, d.what))
+				}
+			}
+		}
+	}
+}
+
+// what the JSON round trip is known to normalise in a tree: a oneof member holding a nil []byte
+// comes back holding an empty one
+func (s *vSchema) normJSON(m *vMsg, t *vT, info *vNormInfo) {
+	for i, f := range m.fields {
+		c := t.kids[i]
+		switch f.card {
+		case vcOpt:
+			if f.ty == vtMsg {
+				s.normJSON(f.msg, c, info)
+			}
+		case vcOneof:
+			if c.k == 's' {
+				if c.kids[0].k == 'n' && f.ty == vtBytes {
+					c.kids[0] = vtBytes_(nil)
+					info.nilinner++
+				} else if f.ty == vtMsg && c.kids[0].k == 'm' {
+					s.normJSON(f.msg, c.kids[0], info)
+				}
+			}
+		case vcRep:
+			if f.ty == vtMsg {
+				for _, e := range c.kids {
+					s.normJSON(f.msg, e, info)
+				}
+			}
+		}
+	}
+}
+
+// export responses
+func (r *vRun) jsonResponseChecks(sg *vSignal, m *vMsg, v reflect.Value, api vRespAPI, pb []byte) {
+	term := vCaseTerm(0, m.id, r.s.tree(m, v).String(), pb, len(pb))
+	var j []byte
+	var err error
+	if !vGuard(r.out, sg.name+" response MarshalJSON", term, func() { j, err = api.MarshalJSON() }) {
+		return
+	}
+	if err != nil {
+		r.out.Oracle("json-marshal", term, fmt.Sprintf("%s response: MarshalJSON fails: %v", sg.name, err))
+		return
+	}
+	rej, msg := sg.respGet(api)
+	try := func(doc []byte, what string) {
+		a2 := sg.newResp(0, "")
+		var err error
+		if !vGuard(r.out, sg.name+" response UnmarshalJSON", term, func() { err = a2.UnmarshalJSON(doc) }) {
+			return
+		}
+		if err != nil {
+			r.out.Oracle("json-roundtrip", term, fmt.Sprintf("%s response (%s): UnmarshalJSON fails: %v", sg.name, what, err))
+			return
+		}
+		n2, m2 := sg.respGet(a2)
+		if n2 != rej || m2 != msg {
+			r.out.Oracle("json-roundtrip", term, fmt.Sprintf("%s response (%s): (%d,%q) comes back as (%d,%q)", sg.name, what, rej, msg, n2, m2))
+			return
+		}
+		pb2, err := a2.MarshalProto()
+		if err != nil || !bytes.Equal(pb2, pb) {
+			r.out.Oracle("json-proto-agree", term, fmt.Sprintf("%s response (%s): Marshal(UnmarshalJSON(MarshalJSON(v))) != Marshal(v) (err=%v)", sg.name, what, err))
+		}
+	}
+	try(j, "as marshalled")
+	if doc, err := vParseJSON(j); err == nil {
+		for _, fm := range vForms {
+			if alt, err := vEncodeJSON(r.rewriteJSON(m, doc, fm.form)); err == nil && !fm.form.intsAsString {
+				try(alt, fm.name)
+			}
+		}
+	}
+	r.hist["json_response"]++
+}
+
+// ---- arbitrary text offered to the JSON unmarshalers -----------------------------------------
+type vJSONDoc struct {
+	sg *vSignal
+	m  *vMsg
+	j  []byte
+}
+
+var vJSONJunk = []string{`null`, `{}`, `[]`, `""`, `0`, `{"resourceLogs":null}`, `{"resourceSpans":[null]}`, `{"resourceMetrics":[{}]}`,
+	`{"resourceLogs":[{"scopeLogs":[{"logRecords":[{"timeUnixNano":-1}]}]}]}`,
+	`{"resourceLogs":[{"scopeLogs":[{"logRecords":[{"timeUnixNano":"18446744073709551616"}]}]}]}`,
+	`{"resourceLogs":[{"scopeLogs":[{"logRecords":[{"severityNumber":"NOPE"}]}]}]}`,
+	`{"resourceLogs":[{"scopeLogs":[{"logRecords":[{"traceId":"zz"}]}]}]}`,
+	`{"resourceLogs":[{"scopeLogs":[{"logRecords":[{"body":{"bytesValue":"***"}}]}]}]}`,
+	`{"resourceSpans":[{"scopeSpans":[{"spans":[{"kind":99,"status":{"code":"STATUS_CODE_ERROR"}}]}]}]}`,
+	`{"resourceMetrics":[{"scopeMetrics":[{"metrics":[{"sum":{"dataPoints":[{"asInt":1.5}]}}]}]}]}`,
+	`{"resourceMetrics":[{"scopeMetrics":[{"metrics":[{"gauge":{"dataPoints":[{"asDouble":"NaN"},{"asDouble":"-Infinity"},{"asDouble":1e999}]}}]}]}]}`,
+	`{"resourceProfiles":[{"scopeProfiles":[{"profiles":[{"profileId":"00"}]}]}]}`,
+	`{"a":{"b":[1,2,{"c":null}]},"resourceLogs":[]}`,
+	"{\"resourceLogs\":[{\"resource\":{\"attributes\":[{\"key\":\"k\",\"value\":{\"arrayValue\":{\"values\":[{\"kvlistValue\":{\"values\":[{\"key\":\"x\",\"value\":{}}]}}]}}}]}}]}",
+}
+
+func (r *vRun) jsonByteCases() {
+	n := vBudget(400, 30)
+	rng := r.rng
+	for i := 0; i < n && len(r.jpool) > 0; i++ {
+		d := r.jpool[rng.Intn(len(r.jpool))]
+		sg := d.sg
+		if rng.Intn(8) == 0 {
+			sg = r.sigs[rng.Intn(len(r.sigs))] // a document of another signal
+		}
+		c := append([]byte(nil), d.j...)
+		what := ""
+		switch op := rng.Intn(8); {
+		case op == 0 && len(c) > 0:
+			c = c[:rng.Intn(len(c))]
+			what = "truncate"
+		case op == 1 && len(c) > 0:
+			c[rng.Intn(len(c))] = byte(rng.U64())
+			what = "byte"
+		case op == 2 && len(c) > 0:
+			at := rng.Intn(len(c))
+			junk := []string{`"`, `{`, `}`, `[`, `]`, `,`, `:`, `\`, `null`, `-`, `1e400`, `"\ud800"`, "\x00", `0x10`, `true`}
+			c = append(append(append([]byte(nil), c[:at]...), junk[rng.Intn(len(junk))]...), c[at:]...)
+			what = "insert"
+		case op == 3 && len(c) > 0:
+			// replace one value token by another kind of value
+			idx := bytes.IndexByte(c[rng.Intn(len(c)):], ':')
+			if idx >= 0 {
+				at := idx + 1
+				repl := []string{`null`, `{}`, `[]`, `"x"`, `-1`, `1.5`, `true`, `"9223372036854775808"`, `18446744073709551616`, `"0x1"`, `""`}
+				c = append(append(append([]byte(nil), c[:at]...), repl[rng.Intn(len(repl))]...), c[at:]...)
+			}
+			what = "value"
+		case op == 4:
+			c = []byte(vJSONJunk[rng.Intn(len(vJSONJunk))])
+			what = "handwritten"
+		case op == 5:
+			// deep nesting
+			k := 50 + rng.Intn(3000)
+			c = []byte(strings.Repeat(`{"a":`, k) + `1` + strings.Repeat(`}`, k))
+			what = "deep"
+		case op == 6:
+			k := rng.Intn(40)
+			c = make([]byte, k)
+			for i := range c {
+				c[i] = byte(rng.U64())
+			}
+			what = "random"
+		default:
+			what = "identity"
+		}
+		r.jsonDecodeCase(sg, c, what)
+	}
+}
+
+func (r *vRun) jsonDecodeCase(sg *vSignal, c []byte, what string) {
+	m := r.s.byType[sg.req]
+	short := c
+	if len(short) > 1500 {
+		short = short[:1500]
+	}
+	term := vCaseTerm(3, m.id, "VNone", short, 0) // kind 3: a JSON text (hex), oracle only
+	var x interface{}
+	var err error
+	if !vGuard(r.out, sg.name+" UnmarshalJSON("+what+")", term, func() { x, err = sg.unmarshalJSON(c) }) {
+		return
+	}
+	if err != nil {
+		r.hist["jsondecode_rejected_"+what]++
+		return
+	}
+	r.hist["jsondecode_accepted_"+what]++
+	var j1, j2 []byte
+	var e1, e2, e3, e4 error
+	var y, z interface{}
+	if !vGuard(r.out, sg.name+" re-encode JSON("+what+")", term, func() {
+		j1, e1 = sg.marshalJSON(x)
+		_, e4 = sg.marshalPB(x)
+		if e1 == nil {
+			y, e2 = sg.unmarshalJSON(j1)
+			if e2 == nil {
+				j2, e3 = sg.marshalJSON(y)
+				if e3 == nil && !bytes.Equal(j1, j2) {
+					z, _ = sg.unmarshalJSON(j2)
+				}
+			}
+		}
+	}) {
+		return
+	}
+	switch {
+	case e1 != nil || e4 != nil:
+		r.out.Oracle("json-fixpoint", term, fmt.Sprintf("%s: a decoded value cannot be marshalled: %v %v", what, e1, e4))
+	case e2 != nil:
+		r.out.Oracle("json-fixpoint", term, fmt.Sprintf("%s: MarshalJSON(UnmarshalJSON(text)) does not decode: %v", what, e2))
+	case e3 != nil || !bytes.Equal(j1, j2):
+		// MarshalJSON(UnmarshalJSON(j1)) != j1 where j1 = MarshalJSON(UnmarshalJSON(text))
+		var d []vFieldDiff
+		if z != nil {
+			r.s.diffAll(m, r.s.tree(m, reflect.ValueOf(y).Elem()), r.s.tree(m, reflect.ValueOf(z).Elem()), &d)
+		}
+		if len(d) == 0 {
+			if e3 == nil && !utf8.Valid(c) && vOnlyReplacementCharDiffers(j1, j2) {
+				r.hist["jsondecode_invalid_utf8_accepted"]++
+				r.out.Oracle("json-fixpoint", term, fmt.Sprintf("known:invalid-utf8 %s: the document is not valid UTF-8 but decodes; the string comes back with U+FFFD, written escaped the first time and literally the second: %s", what, vFirstDiff(j1, j2)))
+			} else {
+				r.out.Oracle("json-fixpoint", term, fmt.Sprintf("%s: re-encoding a decoded document is not a fixed point (err=%v): %s", what, e3, vFirstDiff(j1, j2)))
+			}
+		}
+		r.reportDiffs("json-fixpoint", what+" re-encode", term, d)
+	}
+}
+
+func vSortedKeys(m map[string]int) []string {
+	var ks []string
+	for k := range m {
+		ks = append(ks, k)
+	}
+	sort.Strings(ks)
+	return ks
+}
+
+func vFirstDiff(a, b []byte) string {
+	i := 0
+	for i < len(a) && i < len(b) && a[i] == b[i] {
+		i++
+	}
+	lo := i - 30
+	if lo < 0 {
+		lo = 0
+	}
+	ha, hb := i+40, i+40
+	if ha > len(a) {
+		ha = len(a)
+	}
+	if hb > len(b) {
+		hb = len(b)
+	}
+	return fmt.Sprintf("first difference at offset %d: %q vs %q", i, a[lo:ha], b[lo:hb])
+}
+
+// j1 and j2 are equal once every escaped \ufffd of j1 is written as the literal character
+func vOnlyReplacementCharDiffers(j1, j2 []byte) bool {
+	return bytes.Equal(bytes.ReplaceAll(j1, []byte(`\ufffd`), []byte("\uFFFD")), j2) ||
+		bytes.Equal(bytes.ReplaceAll(j1, []byte(`\ufffd`), []byte("\xef\xbf\xbd")), j2)
+}
